@@ -6,6 +6,7 @@ var zzRegistry = map[string]func(int){
 	"ZZ_C03":      ZZ_C03,
 	"ZZ_C03Alloc": ZZ_C03Alloc,
 	"ZZ_C08":      ZZ_C08,
+	"ZZ_C08X":     ZZ_C08X,
 	"ZZ_C12":      ZZ_C12,
 	"ZZ_C12Odd":   ZZ_C12Odd,
 }
